@@ -491,20 +491,22 @@ BITSETS_ATOMS = ['bitsets.Meta.__init__', 'bitsets.MemberBits.atoms', 'bitsets.M
 BITSETS_KEYS = ['bitsets.MemberBits.shortlex', 'bitsets.MemberBits.longlex', 'bitsets.integers.reinverted', 'lemma.bitsets.key_injective', 'lemma.bitsets.key_order']
 BITSETS_REDUCE = ['bitsets.Meta.reduce_and', 'bitsets.Meta.reduce_or']
 _BS_NOTE = (' The bitsets functions used here are themselves under contract (units bitsets.*, verified from the installed package source); what remains assumed of bitsets: '
-            "bin(x).count('1') = member count, indexes_optimized = indexes (both via bin()), powerset/combos.shortlex, the class registry.")
+            "bin(x).count('1') = member count, indexes_optimized = indexes (both via bin()), the class registry.")
 for _p, _l in (('C01', BITSETS_CORE), ('C19', BITSETS_CORE), ('C02', BITSETS_CORE), ('C03', BITSETS_ATOMS + BITSETS_KEYS), ('C05', BITSETS_ATOMS + BITSETS_KEYS),
                ('C06', BITSETS_KEYS), ('C07', BITSETS_REDUCE), ('C10', BITSETS_CORE), ('C11', ['bitsets.integers.indexes', 'bitsets.Series.index_sets', 'bitsets.MemberBits.bools']),
                ('C04', BITSETS_ATOMS), ('C13', []), ('C14', ['bitsets.MemberBits.frombools', 'bitsets.MemberBits.bools', 'bitsets.Series.frombools', 'bitsets.Series.bools'])):
     PROPS[_p]['units'] = PROPS[_p]['units'] + [u for u in _l if u not in PROPS[_p]['units']]
     if _l:
         PROPS[_p]['level_note'] += _BS_NOTE
-PROPS['C18']['units'] += ['bitsets.combos.shortlex', 'bitsets.MemberBits.powerset', 'bitsets.MemberBits.atoms', 'lemma.powerset.tree', 'bitsets.Meta.__init__',
+PROPS['C18']['units'] += ['bitsets.combos.shortlex', 'bitsets.MemberBits.powerset', 'bitsets.MemberBits.atoms', 'lemma.powerset.tree', 'lemma.powerset.order', 'bitsets.Meta.__init__',
                           'bitsets.MemberBits.members', 'bitsets.integers.indexes']
 PROPS['C18']['proved_part'] += ('; intent.powerset() itself: MemberBits.powerset passes (infimum, the ascending member atoms) to combos.shortlex, which yields every subset exactly once, '
-                                'the empty set first and sizes never decreasing (deque as FIFO array, ownership invariant like Close-by-One, lemma.powerset.tree)')
-PROPS['C18']['bounded_part'] = 'the order among equal-size subsets (ties by property position) of combos.shortlex; replay'
-PROPS['C18']['level_note'] = ('powerset() is no longer assumed: every subset once and shortest first are proved from the bitsets source; the tie order among equal-size subsets '
-                              "and bin()-based helpers (indexes_optimized, count) remain assumed bitsets contracts, run-time checked on the bounded side.")
+                                'the empty set first, in STRICTLY increasing short-lexicographic order (size, then the set owning the lowest differing position first: obligation '
+                                'yield/shortlex-order against the set yielded before; deque as FIFO array, ownership invariant like Close-by-One, sorted-queue invariants O1-O3, '
+                                'lemma.powerset.tree, lemma.powerset.order incl. that the order is a strict total order, so the whole enumeration order is determined)')
+PROPS['C18']['bounded_part'] = 'replay (the order of attributes(), i.e. of the filtered powerset(), is compared at run time as well)'
+PROPS['C18']['level_note'] = ('powerset() is no longer assumed: every subset once and the complete shortlex order (sizes and the tie order among equal-size subsets) are proved from the '
+                              "bitsets source; bin()-based helpers (indexes_optimized, count) remain assumed bitsets contracts, run-time checked on the bounded side.")
 PROPS['C06']['bounded_part'] = "bin(x).count('1') = the number of members (string level); replay with labels whose alphabetical order differs from their position"
 PROPS['C06']['proved_part'] += ('; the sort keys themselves: shortlex()/longlex() = (+/- member count, reinverted bits), integers.reinverted verified from the bitsets source, and '
                                 'lemma.bitsets.key_order: among sets of equal size the key orders by member POSITION (the set owning the lowest differing position first), key injective')
